@@ -18,6 +18,9 @@ import (
 	"strings"
 	"time"
 
+	"github.com/cenkalti/backoff/v4"
+
+	"github.com/restic/restic/internal/backend"
 	"github.com/restic/restic/internal/global"
 	"github.com/restic/restic/internal/repository"
 	"github.com/restic/restic/internal/repository/pack"
@@ -160,6 +163,11 @@ func (h *c10H) runC10(kind string, o c10Opt) error {
 	afterEs, afterPacks := "[]", "[]"
 	nafter := 0
 	if planned {
+		if execErr != nil && h.faultMode != "" {
+			// a prune that reports the injected failure is not a completed prune: nothing to recount
+			c.Hist("fault-" + h.faultMode + "-prune-reported-error")
+			return nil
+		}
 		if execErr != nil {
 			return fmt.Errorf("execute failed: %v", execErr)
 		}
@@ -218,6 +226,54 @@ func engineC10(c *vctx) error {
 			return fmt.Errorf("history %d (%s): %v", i, kind, err)
 		}
 		o := optsGrid[i%len(optsGrid)]
+		if i%2 == 0 && kind != "dup-race" && kind != "pure-missing" {
+			// fault run first: one backend modification fails permanently, everything else proceeds. A
+			// prune that then still reports success is judged like any completed prune (recount of the
+			// index and pack listings afterwards); afterwards the state is put back.
+			h.clearLocks()
+			s0 := filepath.Join(h.root, "state0f")
+			if err := c10Copy(h.e.repo, s0); err != nil {
+				return err
+			}
+			modes := []string{"first-index-remove"}
+			if c.thorough() {
+				modes = append(modes, "second-index-remove", "first-pack-remove")
+			}
+			for _, mode := range modes {
+				h.faultMode = mode
+				nIdx, nPack := 0, 0
+				h.e.rec.Reset()
+				h.e.rec.OnOp = func(op *vop) error {
+					if op.Op != "Remove" {
+						return nil
+					}
+					fail := false
+					switch op.Type {
+					case backend.IndexFile:
+						fail = mode == "first-index-remove" && nIdx == 0 || mode == "second-index-remove" && nIdx == 1
+						nIdx++
+					case backend.PackFile:
+						fail = mode == "first-pack-remove" && nPack == 0
+						nPack++
+					}
+					if fail {
+						return backoff.Permanent(fmt.Errorf("verif: injected permanent failure"))
+					}
+					return nil
+				}
+				err := h.runC10(kind+"-fault-"+mode, o)
+				h.e.rec.OnOp = nil
+				h.e.rec.Reset()
+				h.faultMode = ""
+				if err != nil {
+					return fmt.Errorf("fault run %d (%s): %v", i, kind, err)
+				}
+				h.clearLocks()
+				if err := c10Sync(s0, h.e.repo); err != nil {
+					return err
+				}
+			}
+		}
 		if kind == "dup-race" {
 			// the outcome depends on the scheduling of the repack workers: several rounds from the same state
 			h.clearLocks()
